@@ -457,3 +457,91 @@ Proof.
     pose proof (in_get ordNN _ _ _ S1 Hin) as G. rewrite <- (M o s), G. apply al_eqb_refl. }
   rewrite F3. reflexivity.
 Qed.
+
+(* S_C02 *)
+
+Lemma al_eqb_fields a amt ex : al_amt a = amt -> al_exp a = ex -> al_eqb a (mkAl amt ex) = true.
+Proof. intros <- <-. unfold al_eqb. cbn [al_amt al_exp]. rewrite N.eqb_refl, (proj2 (exp_eqb_eq _ _) eq_refl). reflexivity. Qed.
+Lemma opt_al_refl o : opt_eqb al_eqb o o = true.
+Proof. destruct o as [a|]; cbn; [apply al_eqb_refl|reflexivity]. Qed.
+Lemma msg_eqb_refl m : msg_eqb m m = true.
+Proof. destruct m as [[[c s] n] p]. unfold msg_eqb. rewrite !N.eqb_refl. reflexivity. Qed.
+
+(* the allowance table after a draw by `sender` on `ow` *)
+Lemma draw_allow st blk sender o st' ms ow n : step st blk sender o = Ok (st', ms) -> draw_of o = Some (ow, n) ->
+  exists a, get ordNN (allow st) (ow, sender) = Some a /\ is_expired (al_exp a) blk = false /\ n <= al_amt a /\
+    allow st' = set ordNN (allow st) (ow, sender) (mkAl (al_amt a - n) (al_exp a)).
+Proof.
+  intros H D. destruct o; cbn [draw_of] in D; try discriminate.
+  - destruct owner as [ow'|]; [|discriminate]. inversion D; subst ow' n0.
+    destruct (transfer_from_spec _ _ _ _ _ _ _ _ H) as (ow2 & r & st1 & E1 & _ & Hd & Hm & _). inversion E1; subst ow2.
+    destruct (deduct_allowance_spec _ _ _ _ _ _ Hd) as (a & a2 & G & Ex & Le & _ & _ & _ & ->).
+    exists a. repeat split; try assumption. destruct (move_al_frame _ _ _ _ _ Hm) as (E & _). rewrite E. reflexivity.
+  - destruct owner as [ow'|]; [|discriminate]. inversion D; subst ow' n0.
+    destruct (burn_from_spec _ _ _ _ _ _ _ H) as (ow2 & st1 & E1 & Hd & _ & _ & _ & ->). inversion E1; subst ow2.
+    destruct (deduct_allowance_spec _ _ _ _ _ _ Hd) as (a & a2 & G & Ex & Le & _ & _ & _ & ->).
+    exists a. repeat split; try assumption.
+  - destruct owner as [ow'|]; [|discriminate]. inversion D; subst ow' n0.
+    destruct (send_from_spec _ _ _ _ _ _ _ _ _ H) as (ow2 & r & st1 & E1 & _ & Hd & Hm & _). inversion E1; subst ow2.
+    destruct (deduct_allowance_spec _ _ _ _ _ _ Hd) as (a & a2 & G & Ex & Le & _ & _ & _ & ->).
+    exists a. repeat split; try assumption. destruct (move_al_frame _ _ _ _ _ Hm) as (E & _). rewrite E. reflexivity.
+Qed.
+
+Theorem s_c02_sound pre post blk sender o ms :
+  let st := state_of_obs pre false in let st' := state_of_obs post false in
+  sorted ordNN (allow st) -> step st blk sender o = Ok (st', ms) -> s_c02 pre post blk sender o true ms = 0.
+Proof.
+  cbv zeta. set (st := state_of_obs pre false). set (st' := state_of_obs post false). intros Hs H.
+  unfold s_c02. fold st. fold st'. cbn [andb negb].
+  (* clause 1 *)
+  assert (F1: forallb (fun a => (bal st a <=? bal st' a) || debit_ok st st' blk sender o a) (addrs_of st st' []) = true).
+  { apply forallb_forall. intros a _. destruct (bal st a <=? bal st' a) eqn:L; [reflexivity|]. cbn [orb].
+    apply N.leb_gt in L. destruct (debit_authorised _ _ _ _ _ _ a H L) as [[-> Hself]|(n & al & D & G & Ex & Le & G' & Eb)].
+    - unfold debit_ok. rewrite N.eqb_refl, Hself. reflexivity.
+    - unfold debit_ok. rewrite D. rewrite N.eqb_refl. cbn [andb].
+      unfold q_al, q_allowance, has. rewrite G, G'. rewrite Ex. cbn [negb andb].
+      rewrite (proj2 (N.leb_le _ _) Le). cbn [andb]. rewrite al_eqb_refl, orb_true_r. cbn [andb].
+      rewrite Eb, N.eqb_refl. apply orb_true_r. }
+  rewrite F1. cbn [negb].
+  (* clause 2 *)
+  assert (F2: forallb (fun k => opt_eqb al_eqb (get ordNN (allow st) k) (get ordNN (allow st') k)
+                               || al_change_ok st st' blk sender o (fst k) (snd k)) (pair_keys st st') = true).
+  { apply forallb_forall. intros [ow sp] _. cbn [fst snd].
+    destruct (opt_eqb al_eqb (get ordNN (allow st) (ow, sp)) (get ordNN (allow st') (ow, sp))) eqn:Eq; [reflexivity|]. cbn [orb].
+    assert (Hne: get ordNN (allow st') (ow, sp) <> get ordNN (allow st) (ow, sp)).
+    { intros E. rewrite E, opt_al_refl in Eq. discriminate. }
+    destruct (allowance_frame _ _ _ _ _ _ ow sp H Hne) as [(-> & n & e & [->| ->])|(-> & n & D)].
+    - (* increase *)
+      destruct (increase_spec _ _ _ _ _ _ _ _ H) as (s & a1 & a2 & E & _ & _ & I1 & _ & Hst). inversion E; subst s.
+      unfold al_change_ok. rewrite !N.eqb_refl. cbn [andb]. rewrite Hst. cbn [allow set_allow set_allow_sp]. rewrite get_set_eq.
+      destruct (inc_update_spec _ _ _ _ _ I1) as (A1 & _ & A2 & _). cbn zeta in A1, A2. cbn [opt_eqb].
+      apply al_eqb_fields; assumption.
+    - (* decrease *)
+      destruct (decrease_spec _ _ _ _ _ _ _ _ H) as (s & a & E & _ & _ & G & [(Lt & ex & -> & _ & Hst)|(Le & Hst)]); inversion E; subst s;
+        unfold al_change_ok; rewrite !N.eqb_refl; cbn [andb]; rewrite G, Hst; cbn [allow set_allow set_allow_sp].
+      + rewrite (proj2 (N.ltb_lt _ _) Lt). rewrite get_set_eq. cbn [opt_eqb]. apply al_eqb_refl.
+      + rewrite (proj2 (N.ltb_ge _ _) Le). rewrite get_remove_eq by exact Hs. reflexivity.
+    - (* a draw by the spender *)
+      destruct (draw_allow _ _ _ _ _ _ _ _ H D) as (a & G & Ex & Le & Hal).
+      unfold al_change_ok. rewrite D, G.
+      assert (X: match o with
+                 | IncreaseAllowance (Some _) _ _ | DecreaseAllowance (Some _) _ _ => False
+                 | _ => True end) by (destruct o; cbn [draw_of] in D; try discriminate; exact I).
+      destruct o as [| | | |s0 n0 e0|s0 n0 e0| | | | | |]; try destruct s0; try contradiction;
+        rewrite ?N.eqb_refl; cbn [andb]; rewrite (proj2 (N.leb_le _ _) Le); cbn [andb]; rewrite Hal, get_set_eq; cbn [opt_eqb]; apply al_eqb_refl. }
+  rewrite F2. cbn [negb].
+  (* clauses 3, 4, 5 *)
+  rewrite (notify_exact _ _ _ _ _ _ H). rewrite (list_eqb_refl' msg_eqb msg_eqb_refl). cbn [negb].
+  destruct (draw_of o); [rewrite (model_s_c01_delta _ _ _ _ _ _ H)|]; reflexivity.
+Qed.
+
+Theorem s_c02_sound_refused pre blk sender o : s_c02 pre pre blk sender o false [] = 0.
+Proof.
+  unfold s_c02. set (st := state_of_obs pre false). cbn [andb negb].
+  assert (F1: forallb (fun a => (bal st a <=? bal st a) || false) (addrs_of st st []) = true).
+  { apply forallb_forall. intros a _. rewrite N.leb_refl. reflexivity. }
+  rewrite F1. cbn [negb].
+  assert (F2: forallb (fun k => opt_eqb al_eqb (get ordNN (allow st) k) (get ordNN (allow st) k) || false) (pair_keys st st) = true).
+  { apply forallb_forall. intros k _. rewrite opt_al_refl. reflexivity. }
+  rewrite F2. reflexivity.
+Qed.
